@@ -156,8 +156,18 @@ def _gen_op(rng, config):
 
 def generate(rng, config):
     nops = rng.choice([1, 2, 3, 4, 6, 8, 12, 18, 25])
-    return {"class": config, "ops": [_gen_op(rng, config)
+    case = {"class": config, "ops": [_gen_op(rng, config)
                                      for _ in range(nops)]}
+    if config in ("cnf", "opb") and rng.random() < 0.15:
+        # the history starts from a formula read from a DIMACS text whose
+        # last declared variables occur in no clause
+        n = rng.randint(0, 8)
+        used = rng.randint(0, n)
+        case["start"] = {"n": n, "clauses": [
+            [rng.choice([1, -1]) * rng.randint(1, used)
+             for _ in range(rng.randint(1, 3))]
+            for _ in range(rng.randint(0, 3))] if used else []}
+    return case
 
 
 # ---------------------------------------------------------------------------
@@ -300,6 +310,19 @@ def execute(case, ctx):
         F = BaseCNF()
         V = VariablesManager(F)
     names = []                  # reference name table, names[i-1]; None=gray
+    if case.get("start"):
+        st = case["start"]
+        text = "p cnf %d %d\n" % (st["n"], len(st["clauses"])) + "".join(
+            " ".join(map(str, c)) + " 0\n" for c in st["clauses"])
+        from cnfgen.utils.parsedimacs import from_dimacs_file
+        r = call(from_dimacs_file, CNF if klass == "cnf" else OPB,
+                 io.StringIO(text))
+        if r[0] == "exc":
+            raise Violation("C11/start-from-dimacs/%s" %
+                            exc_signature(r[1], REPO), repr(r[1]))
+        F = V = r[1]
+        names = ["x%d" % i for i in range(1, st["n"] + 1)]
+        ctx.probe("history starts from a DIMACS-read formula")
     step = [0, None]
     nonempty = 0
     gaps = refusals = 0
